@@ -24,17 +24,22 @@ def _hook(event, args):
             elif isinstance(flags, int):
                 w = bool(flags & (os.O_WRONLY | os.O_RDWR | os.O_CREAT | os.O_TRUNC | os.O_APPEND))
             if w and isinstance(path, (str, bytes)):
-                _state['events'].append(('write', os.fsdecode(path)))
+                _state['events'].append(('write', _abs(path)))
         elif event in ('os.remove', 'os.unlink'):
-            _state['events'].append(('remove', os.fsdecode(args[0])))
+            _state['events'].append(('remove', _abs(args[0])))
         elif event == 'os.rename':
-            _state['events'].append(('rename', os.fsdecode(args[0]), os.fsdecode(args[1])))
+            _state['events'].append(('rename', _abs(args[0]), _abs(args[1])))
         elif event == 'os.mkdir':
-            _state['events'].append(('mkdir', os.fsdecode(args[0])))
+            _state['events'].append(('mkdir', _abs(args[0])))
         elif event == 'os.truncate':
             _state['events'].append(('truncate', os.fsdecode(args[0]) if isinstance(args[0], (str, bytes)) else repr(args[0])))
     except Exception:
         pass
+
+
+def _abs(p):
+    """the path as it is meant at the time of the event (a relative name belongs to the current directory of that moment)"""
+    return os.path.abspath(os.fsdecode(p))
 
 
 def install():
